@@ -61,7 +61,7 @@ func cmdFaults(args []string) error {
 	out := fl.String("out", "", "work directory")
 	n := fl.Int("n", 200, "number of sampled cases per part")
 	seed := fl.Int64("seed", 1, "PRNG seed")
-	part := fl.String("part", "rr,upload,compact,restore", "parts to run")
+	part := fl.String("part", "rr,upload,compact,behind,restore", "parts to run")
 	replay := fl.String("replay", "", "case file to re-run on the implementation")
 	thorough := fl.Bool("thorough", false, "larger exhaustive scopes")
 	if err := fl.Parse(args); err != nil {
@@ -89,6 +89,10 @@ func cmdFaults(args []string) error {
 				genRR(e)
 			case "upload":
 				if err := genUpload(e); err != nil {
+					return err
+				}
+			case "behind":
+				if err := genBehind(e); err != nil {
 					return err
 				}
 			case "compact":
